@@ -54,6 +54,32 @@ def newSignature (sign : Bytes → Bytes) (sum : SumFn) (ctx : Bytes) (ht : Int)
   | none => none
   | some h => some { hashType := ht, sigData := sign (signBody ctx ht h) }
 
+/-- `NewSignatureWithHashedData(ctx, sk, ht, hashData, inclPubKey)`; `pub` is the raw public key
+of `sk` (`privKey.GetPublic()`). As fixed by "fix: peer: NewSignatureWithHashedData rejects the
+UNKNOWN hash type and hashed data whose length is not the digest length". -/
+def newSignatureWithHashedData (sign : Bytes → Bytes) (pub ctx : Bytes) (ht : Int) (hashData : Bytes)
+    (incl : Bool) : Option Signature :=
+  if !hashTypeValid ht then none
+  else if ht = 0 then none
+  else if hashData.length ≠ hashLen ht then none
+  else some { pubKey := if incl then marshalPublicKey pub else [], hashType := ht,
+              sigData := sign (signBody ctx ht hashData) }
+
+/-- The same constructor BEFORE that fix (only `hashType.Validate()`), kept for the refutation
+`C02.hashed_unchecked_binds_context_false`. -/
+def newSignatureWithHashedDataUnchecked (sign : Bytes → Bytes) (pub ctx : Bytes) (ht : Int) (hashData : Bytes)
+    (incl : Bool) : Option Signature :=
+  if !hashTypeValid ht then none
+  else some { pubKey := if incl then marshalPublicKey pub else [], hashType := ht,
+              sigData := sign (signBody ctx ht hashData) }
+
+/-- `NewSignature(ctx, sk, ht, data, inclPubKey)`: `hash.Sum`, then the constructor above. -/
+def newSignatureIncl (sign : Bytes → Bytes) (pub : Bytes) (sum : SumFn) (ctx : Bytes) (ht : Int)
+    (data : Bytes) (incl : Bool) : Option Signature :=
+  match sum ht data with
+  | none => none
+  | some h => newSignatureWithHashedData sign pub ctx ht h incl
+
 structure SignedMsg where
   fromPeerId : Bytes := []      -- base58 text
   signature : Signature := {}
@@ -61,7 +87,7 @@ structure SignedMsg where
 deriving Repr, DecidableEq
 
 inductive EavErr where
-  | emptyBody | emptyPeerId | sigInvalid | badPeerId | noPubKey | badSignature
+  | emptyBody | emptyPeerId | sigInvalid | badPeerId | noPubKey | notCanonical | badSignature
 deriving Repr, DecidableEq
 
 /-- `SignedMsg.ExtractAndVerify(ctx)`: `(raw public key, raw peer id)`. -/
@@ -77,6 +103,8 @@ def extractAndVerify (verify : VerifyFn) (sum : SumFn) (m : SignedMsg) (ctx : By
       match extractPublicKey id with
       | none => .error .noPubKey
       | some pk =>
+        -- `ExtractPubKey`: the sender must be THE id of its key, in its one text form
+        if !(matchesPublicKey id pk) || idB58Encode id != m.fromPeerId then .error .notCanonical else
         match verifyWithPublic verify sum m.signature ctx pk m.data with
         | .good => .ok (pk, id)
         | _ => .error .badSignature
